@@ -70,5 +70,81 @@ Fixpoint shape_ok (a : ast) : bool :=
          | None => false
          end
   | SliceHead c n k => shape_ok c && Z.ltb 0 n && Z.leb 0 k
-  | _ => false
+  | SubqueryMarker (Alias c0 (Some m)) =>
+      (* the renaming keeps different identities different *)
+      shape_ok c0
+      && match compile c0 with
+         | Some cc =>
+             let U := ast_uids c0 ++ c_scope cc ++ map fst (c_labels cc) in
+             forallb (fun a => forallb (fun b => implb (N.eqb (remap_uid m a) (remap_uid m b)) (N.eqb a b)) U) U
+         | None => false
+         end
+  | SubqueryMarker c => shape_ok c
+  | Alias c (Some m) =>
+      (* the renaming keeps different identities different; the new identities are new *)
+      shape_ok c
+      && match compile c with
+         | Some cc =>
+             let U := ast_uids c ++ c_scope cc ++ map fst (c_labels cc) ++ map fst (c_defs cc) in
+             forallb (fun a => forallb (fun b => implb (N.eqb (remap_uid m a) (remap_uid m b)) (N.eqb a b)) U) U
+             && nodup_u (map snd m) && nodup_u (map fst m)
+             && disjointb (map snd m) (map fst (c_defs cc)) && disjointb (map snd m) (map fst (c_labels cc))
+             && forallb (fun x => mem_u x (map fst m)) (c_scope cc)
+         | None => false
+         end
+  | Join l r on JInner =>
+      (* both operands: plain SELECT ... FROM ... WHERE (not summarized, ordered, limited or grouped, no
+         window column), an element-wise condition, and the two operands share no column identity *)
+      shape_ok l && shape_ok r && elem on
+      && match compile l, compile r with
+         | Some cl, Some cr =>
+             let plain := fun c : compiled =>
+                 negb (q_summ (c_q c)) && is_nil (q_order (c_q c)) && is_nil (q_part (c_q c))
+                 && ds_elem_b (c_defs c) in
+             plain cl && plain cr
+             && scoped (c_scope cl ++ c_scope cr) on
+             && disjointb (c_scope cl) (ast_uids r) && disjointb (c_scope cr) (ast_uids l)
+             && disjointb (c_cols cl) (c_cols cr)
+             && disjointb (map fst (c_defs cl)) (map fst (c_defs cr))
+             && disjointb (q_select (c_q cl)) (map fst (c_labels cr))
+         | _, _ => false
+         end
+  | Join l r on JLeft =>
+      (* as for the inner join; in addition the right operand has no computed column: an inlined definition
+         would be evaluated on the NULL padding of a left row without partner (finding F37) *)
+      shape_ok l && shape_ok r && elem on
+      && match compile l, compile r with
+         | Some cl, Some cr =>
+             let plain := fun c : compiled =>
+                 negb (q_summ (c_q c)) && is_nil (q_order (c_q c)) && is_nil (q_part (c_q c))
+                 && ds_elem_b (c_defs c) in
+             plain cl && plain cr
+             && forallb (fun d => match snd d with ECol _ => true | _ => false end) (c_defs cr)
+             && scoped (c_scope cl ++ c_scope cr) on
+             && disjointb (c_scope cl) (ast_uids r) && disjointb (c_scope cr) (ast_uids l)
+             && disjointb (c_cols cl) (c_cols cr)
+             && disjointb (map fst (c_defs cl)) (map fst (c_defs cr))
+             && disjointb (q_select (c_q cl)) (map fst (c_labels cr))
+         | _, _ => false
+         end
+  | Join l r on JFull =>
+      (* as for the left join, and no computed column on the left either *)
+      shape_ok l && shape_ok r && elem on
+      && match compile l, compile r with
+         | Some cl, Some cr =>
+             let plain := fun c : compiled =>
+                 negb (q_summ (c_q c)) && is_nil (q_order (c_q c)) && is_nil (q_part (c_q c))
+                 && ds_elem_b (c_defs c) in
+             plain cl && plain cr
+             && forallb (fun d => match snd d with ECol _ => true | _ => false end) (c_defs cl)
+             && forallb (fun d => match snd d with ECol _ => true | _ => false end) (c_defs cr)
+             && scoped (c_scope cl ++ c_scope cr) on
+             && disjointb (c_scope cl) (ast_uids r) && disjointb (c_scope cr) (ast_uids l)
+             && disjointb (c_cols cl) (c_cols cr)
+             && disjointb (map fst (c_defs cl)) (map fst (c_defs cr))
+             && disjointb (q_select (c_q cl)) (map fst (c_labels cr))
+         | _, _ => false
+         end
+  | Union l r _ =>                              (* compile = Some: every left column name exists on the right *)
+      shape_ok l && shape_ok r && match compile l with Some cl => nodup_u (q_select (c_q cl)) | None => false end
   end.
